@@ -351,6 +351,10 @@ func runConcMode(c ConcCase, x *h.Ctx, raceMode bool, sched []int) {
 			commitPath(200)
 		}()
 		if !gs.run() {
+			// everything has been released and runs free now: let it finish before the next case
+			// uses the pool (a genuine deadlock ends in the leg's time-out: no verdict)
+			wg.Wait()
+			<-k.done
 			x.Label("inconclusive:a-thread-neither-reached-the-pool-lock-nor-finished")
 			return
 		}
